@@ -20,7 +20,7 @@ import sys
 from concurrent.futures import ThreadPoolExecutor
 
 import common
-from common import to_coq, Raw
+from common import to_coq
 import lib
 
 sys.path.insert(0, os.path.join(common.VERIF, 'translator'))
